@@ -30,6 +30,15 @@ def log(*a):
 def build(race=False):
     os.makedirs(BUILD, exist_ok=True)
     h = os.path.join(VERIF, 'harness')
+    if REPO != '/repo':
+        # a run against another checkout of the library (VERIF_REPO, e.g. `vp run --with-repo`): the
+        # harness module replaces the import path by a directory, so build from a copy that points there
+        h2 = os.path.join(BUILD, 'harness-src')
+        shutil.rmtree(h2, ignore_errors=True)
+        shutil.copytree(h, h2)
+        gm = open(os.path.join(h2, 'go.mod')).read().replace('=> /repo', '=> ' + REPO)
+        open(os.path.join(h2, 'go.mod'), 'w').write(gm)
+        h = h2
     shutil.copyfile(os.path.join(REPO, 'go.sum'), os.path.join(h, 'go.sum')) if os.path.exists(os.path.join(REPO, 'go.sum')) else None
     out = os.path.join(BUILD, 'verifh-race' if race else 'verifh')
     cmd = ['go', 'build', '-tags', 'verif'] + (['-race'] if race else []) + ['-o', out, '.']
